@@ -239,6 +239,11 @@ class Formatter:
         if "over" in json:
             over = json["over"]
             parts.append("OVER")
+            named_window = is_text(over)
+            if named_window:
+                # REFERENCE TO A NAMED WINDOW
+                parts.append(self.dispatch(over))
+                over = {}
             window = []
             if "partitionby" in over:
                 window.append(self.partitionby(over, precedence["window"]))
@@ -289,7 +294,8 @@ class Formatter:
                         window.extend(wordy(max))
 
             window = " ".join(window)
-            parts.append(f"({window})")
+            if not named_window:
+                parts.append(f"({window})")
         if "name" in json:
             parts.extend(["AS", self.dispatch(json["name"])])
         if "tablesample" in json:
